@@ -188,7 +188,7 @@ PROPS["C09"] = dict(
 
 PROPS["C04"] = dict(
     level="model_checking",
-    budget_s=dict(quick=150, thorough=1500),
+    budget_s=dict(quick=150, thorough=2700),
     parts=[dict(name="graphs", bin="C04", flavour="plain")],
     manifest=dict(
         engine="E1", design_ref="5 / C04",
